@@ -17,18 +17,23 @@ results written for it (`tag` as written on the wire, class OK / NO / BAD / BYE)
 The reader does not depend on `serve` (unbuffered channel: it is at most one line ahead), so the model is
 `serveAll ∘ readAll`.
 
-What is modelled as the code IS, including what is wrong with it (each has a witness theorem in
-`Theorems/C11Session.lean` and a `cause=` label in oracle `c11session`):
-* `Parse` returns `Command{}` for errors at the final CR / LF, so the BAD for `a NOOP x` carries an EMPTY
-  tag (` BAD …`, a line starting with a space), not `a` (`Cfg.lateErrDropsTag`, from the facts);
-* a line without a parsable tag is answered ` BAD` / ` NO` with an empty tag, not `*`;
-* `MakeError` reports the PREVIOUS token; before the first line that is the zero token, whose type is
-  EOF: a first line that starts with a byte that cannot start a tag is taken for end of input and the
-  connection is dropped without a reply (`ReaderExit.eofTokenDrop`);
-* STARTTLS without TLS configuration returns the NO response as an `error` instead of sending it: the
-  connection is dropped without a reply (`ReaderExit.starttlsNoTLS`);
+What is modelled as the code IS, including what is (or was) wrong with it; each behaviour that a repair changed
+is a `Cfg` flag derived from the regenerated facts, so the model follows the source:
+* `Cfg.lateErrDropsTag`: `Parse` returned `Command{}` for errors at the final CR / LF, so the BAD for `a NOOP x`
+  carried an EMPTY tag (repaired by /repo d36bee1: `Command{Tag: result.Tag}`; the flag is `false` now);
+* `Cfg.emptyTagIsStar`: `response.Bad("")` / `response.No("")` kept the empty string as tag (` BAD …`, a line
+  starting with a space); since /repo 6e0070e an empty tag argument yields the untagged `* BAD` / `* NO`
+  (`response.Ok` is unchanged, but no OK is ever written for a line without a tag: DONE outside IDLE is refused);
+* `Cfg.starttlsNoTLSDrops`: STARTTLS without TLS configuration returned the NO response as an `error` instead of
+  sending it and the connection was dropped (`ReaderExit.starttlsNoTLS`); since /repo d270f6a it is answered
+  `<tag> NO` by the reader, which carries on (`ReadRes.tlsNo`);
+* STILL in the code (known finding `cause=first-line-bad-tag-drops`): `MakeError` reports the PREVIOUS token; before
+  the first line that is the zero token, whose type is EOF: a first line that starts with a byte that cannot
+  start a tag is taken for end of input and the connection is dropped without a reply
+  (`ReaderExit.eofTokenDrop`);
 * IDLE (authenticated) consumes exactly ONE further line: DONE → OK, any other command → BAD, a parse error
-  → NO, all tagged with the IDLE's tag; the error counter is not touched by that line.
+  → NO, all tagged with the IDLE's tag; the error counter is not touched by that line;
+* DONE outside IDLE reaches `handleCommand`'s `default:` ("bad command"): NO.
 
 Not modelled: state updates arriving between commands (only through `Backend.invalid`), write errors on
 the connection, context cancellation, the TLS handshake after a successful STARTTLS (the stream ends there:
@@ -72,6 +77,8 @@ structure Cfg where
   /-- `handleStartTLS` without TLS configuration returns its NO response as an error (unsent) and the
   reader returns; `false` = it sends `<tag> NO` and the reader goes on -/
   starttlsNoTLSDrops : Bool
+  /-- `response.Bad(tag)` / `response.No(tag)` with an empty `tag` write the untagged form `*` -/
+  emptyTagIsStar : Bool
   deriving Repr
 
 /-! ### the reader goroutine -/
@@ -84,8 +91,7 @@ inductive ReadRes
   | cmd (c : Command)
   /-- STARTTLS with a TLS configuration: the reader itself has written `<tag> OK Begin TLS negotiation now` -/
   | tlsOk (tag : Bytes)
-  /-- STARTTLS without a TLS configuration, answered by the reader with `<tag> NO` (not the current code:
-  `Cfg.starttlsNoTLSDrops`) -/
+  /-- STARTTLS without a TLS configuration, answered by the reader with `<tag> NO` (`Cfg.starttlsNoTLSDrops = false`) -/
   | tlsNo (tag : Bytes)
 
 /-- one iteration of the reader loop that produced a result: the bytes it read and the result -/
@@ -218,33 +224,44 @@ inductive Next (σ : Type)
   | cont (st : SState σ)
   | stop (w : Why)
 
+/-- the first word `response.Bad(tag)` / `response.No(tag)` write -/
+def wireTag (cfg : Cfg) (tag : Bytes) : Bytes := if cfg.emptyTagIsStar && tag.isEmpty then star else tag
+
+/-- the completion `response.Ok(tag)` / `response.No(tag)` / `response.Bad(tag)` puts on the wire -/
+def mkC (cfg : Cfg) (tag : Bytes) (cls : Cls) : Completion :=
+  match cls with
+  | .no => ⟨wireTag cfg tag, .no⟩
+  | .bad => ⟨wireTag cfg tag, .bad⟩
+  | c => ⟨tag, c⟩
+
 /-- `serve`'s reaction to one reader result: the completions written, and whether it goes on -/
 def serveStep (cfg : Cfg) (B : Backend σ) (st : SState σ) (r : ReadRes) : List Completion × Next σ :=
   match r with
-  | .tlsOk tag => ([⟨tag, .ok⟩], .cont st)
-  | .tlsNo tag => ([⟨tag, .no⟩], .cont st)
+  | .tlsOk tag => ([mkC cfg tag .ok], .cont st)
+  | .tlsNo tag => ([mkC cfg tag .no], .cont st)
   | .err tag =>
     match st.mode with
-    | .idle it => ([⟨it, .no⟩], .cont { st with mode := .normal })      -- `handleIdle` returns `res.err`
+    | .idle it => ([mkC cfg it .no], .cont { st with mode := .normal })      -- `handleIdle` returns `res.err`
     | .normal =>
       let e := st.errs + 1
-      ([⟨tag, .bad⟩], if e ≥ cfg.maxErr then .stop .tooManyErrors else .cont { st with errs := e })
+      ([mkC cfg tag .bad], if e ≥ cfg.maxErr then .stop .tooManyErrors else .cont { st with errs := e })
   | .cmd c =>
     match st.mode with
     | .idle it =>
-      ([⟨it, match c.payload with | .done => .ok | _ => .bad⟩], .cont { st with mode := .normal })
+      ([mkC cfg it (match c.payload with | .done => .ok | _ => .bad)], .cont { st with mode := .normal })
     | .normal =>
       let st := if cfg.resetOnSuccess then { st with errs := 0 } else st
       if B.authed st.bk && B.invalid st.bk then ([⟨star, .bye⟩], .stop .invalidState)
       else
         match c.payload with
-        | .logout => ([⟨c.tag, .ok⟩], .stop .logout)
+        | .logout => ([mkC cfg c.tag .ok], .stop .logout)
         | .idle =>
           if B.authed st.bk then ([], .cont { st with mode := .idle c.tag })
-          else ([⟨c.tag, .no⟩], .cont st)                                 -- `ErrNotAuthenticated`
+          else ([mkC cfg c.tag .no], .cont st)                              -- `ErrNotAuthenticated`
+        | .done => ([mkC cfg c.tag .no], .cont st)                          -- `handleCommand` default: "bad command"
         | _ =>
           let r := B.exec st.bk c
-          ([⟨c.tag, r.1.toCls⟩], .cont { st with bk := r.2 })
+          ([mkC cfg c.tag r.1.toCls], .cont { st with bk := r.2 })
 
 /-- how the session ends -/
 inductive End
